@@ -57,6 +57,30 @@ def direction(g, variant=0, _state=None, tscale=1):
 HESSIAN_GROUPS = ("SO2", "SO3", "SE2", "SE3", "C1")     # Galilei and SE_K_3 do not implement d2r_exp / d2r_expinv
 
 
+def zero_part(g, a0):
+    """direction with the tangent segment of one non-commutative part (or the rotation of a semidirect group) set to zero; None when the
+    group has no such part"""
+    out = list(a0)
+    if g.members:
+        off = 0
+        for m in g.members:
+            if not m.comm and not m.key.startswith("V"):
+                for i in range(m.dof):
+                    out[off + i] = Fraction(0)
+                return out
+            off += m.dof
+        return None
+    base = g.key[:-1]
+    if base in TAN_ROT3 and base != "SO3":
+        o = TAN_ROT3[base]
+        out[o:o + 3] = [Fraction(0)] * 3
+        return out
+    if base == "SE2":
+        out[2] = Fraction(0)
+        return out
+    return None
+
+
 def has_hessian(g):
     if g.members:
         return all(has_hessian(m) or m.key.startswith("V") for m in g.members)
@@ -183,9 +207,15 @@ def run(rep, tier, prop, names, tol, full_order=8, variants=1):
         g, nm = meta["g"], meta["name"]
         (r1, c1), (r2, c2) = meta["shape"]
         hess = nm in ("d2rexp", "d2rinv")
-        for variant in range(variants):
-            a0 = direction(g, variant, tscale=TSCALE)
-            b0 = direction(g, variant + 1)[::-1]
+        for variant in list(range(variants)) + ["zero-part"]:
+            if variant == "zero-part":
+                a0 = zero_part(g, direction(g, 0, tscale=TSCALE))
+                if a0 is None:
+                    continue
+                b0 = direction(g, 1)[::-1]
+            else:
+                a0 = direction(g, variant, tscale=TSCALE)
+                b0 = direction(g, variant + 1)[::-1]
             inputs = {"a%d" % i: Series({1: a0[i]}, rays.N_IN) for i in range(g.dof)}
             if hess:
                 inputs.update({"b%d" % i: Series.const(b0[i], rays.N_IN) for i in range(g.dof)})
@@ -196,7 +226,7 @@ def run(rep, tier, prop, names, tol, full_order=8, variants=1):
                 if p == 1 and hess:
                     return "b%d" % (off // 8)
                 return None
-            inst = "%s ray %d" % (nm, variant)
+            inst = "%s ray %s" % (nm, variant)
             try:
                 paths, tstar = rays.evaluate(ff, cell_var, inputs, max_paths=512)
                 results = []
